@@ -17,7 +17,7 @@ def check(P: Project, R: Report) -> None:
     R.rule("R2", "every value that reaches `s` is line-safe: the result of a compact serialiser (fast_json.dumps / model_dump_json without indent) or a string on a path that excluded raw CR/LF (or re-encoded it)")
     R.rule("R3", "model serialisation paths pass exclude_none=True (absent optional members are omitted, not sent as null)")
     R.rule("R4", "dropped alone / in order: with every call in the loop body fallible, no exception edge, break or return leaves the writer loop body; nothing is spawned")
-    R.rule("R5", "the normal end of the outgoing stream is followed by stdin.aclose()")
+    R.rule("R5", "the normal end of the outgoing stream is followed by stdin.aclose(), and the caller's write stream is the only lasting sending handle on that stream (no clone kept), so closing it is that end")
     wr, loop = _stdio.writer(P)
     R.fn(wr.fq)
     rel = wr.module.rel
@@ -168,6 +168,31 @@ def check(P: Project, R: Report) -> None:
     closes = [c for c in walk_local(wr.node) if isinstance(c, ast.Call) and call_name(c).endswith("stdin.aclose")]
     R.ob("R5", "the close is after the loop, not inside it", bool(closes) and all(c not in list(walk_local(loop)) for c in closes), wr.where, "")
 
+    # closing the write stream ends the outgoing stream only if the caller's handle is the only sending handle:
+    # a clone of the send end that lives on (anything but `with … .clone() as h`) keeps the writer's `async for` from ever ending
+    from ..model import local_values
+    from ..roles import stream_roles
+
+    ci = _stdio.client(P)
+    out_send = stream_roles(P, ci)["outgoing_send"]
+    n_fn = 0
+    kept = []
+    for f in list(P.methods(ci).values()) + [g for g in P.funcs.values() if g.module is ci.module and g.cls is None]:
+        n_fn += 1
+        managed = {id(it.context_expr) for w in walk_local(f.node) if isinstance(w, (ast.With, ast.AsyncWith)) for it in w.items}
+        for c in walk_local(f.node):
+            if isinstance(c, ast.Call) and isinstance(c.func, ast.Attribute) and c.func.attr == "clone":
+                recv = c.func.value
+                if isinstance(recv, ast.Name):
+                    vals = [v for v in local_values(f.node).get(recv.id, []) if v is not None]
+                    recv = next((v for v in vals if isinstance(v, ast.Attribute)), recv)
+                if ast.unparse(recv) == f"self.{out_send}" and id(c) not in managed:
+                    kept.append((f, c))
+    R.extra["functions_searched_for_send_handles"] = n_fn
+    R.ob("R5", "the caller's write stream is the only sending handle on the outgoing stream", not kept, f"{kept[0][0].module.rel}:{kept[0][1].lineno}" if kept else wr.where,
+         (f"`{ast.unparse(kept[0][1])}` in {kept[0][0].qual} makes a second sending handle that is not closed with the caller's: after the caller closes the write stream the writer loop never sees the end of the stream and stdin stays open" if kept else ""),
+         sample=f"R5 no lasting clone of self.{out_send} in {n_fn} functions")
+
 
 def _utf8(call: ast.Call) -> bool:
     if not call.args and not call.keywords:
@@ -210,3 +235,4 @@ def _frame_parts(pn):
 
 def _true(node) -> bool:
     return isinstance(node, ast.Constant) and node.value is True
+
